@@ -82,6 +82,11 @@ pub const GARBAGE_PAYLOAD: u32 = 0xDEAD_BEEF;
 /// Counts invocations made inside library calls and fires the injected fault.
 #[inline]
 pub fn user_code_tick(what: &'static str) {
+    // user code that panics while another panic is unwinding aborts the process by language
+    // rule, whatever the library does: never inject there (and do not count the invocation)
+    if std::thread::panicking() {
+        return;
+    }
     let fire = reg(|r| {
         if !r.in_lib {
             return false;
